@@ -296,7 +296,7 @@ func runC17_2(c *core.Ctx) {
 			if cf == nil || v.byObj[cf] == nil {
 				continue
 			}
-			switch cf.Name() {
+			switch nameOf(cf) {
 			case "newStreamConn": // (proto, fd, el, sa, localAddr, remoteAddr)
 				n++
 				c.Check(flow.ObjOf(f.Info, call.Args[3]) == saObj && derivedFromSa(call.Args[5]), f.Name, "remote address of the accepted conn", call.Pos(), "sockaddr and RemoteAddr come from this Accept",
